@@ -21,7 +21,7 @@ def gen_typed(t, tier):
          "let a = Ref::new(f);",
          "let fx = crate::stdlib::convert::ConvertScalarToScalar::<f64, %s> { arg: a.clone(), out: Ref::new(0 as %s) };" % (t, t),
          "fx.solve();", "let out: %s = *fx.out.borrow();" % t,
-         "if (n as u128) <= (%s::MAX as u128) { kani::cover!(n > (1 << 20), \"VP:reached-fits\"); assert!((out as u128) == (n as u128), \"VP:literal-evaluates-to-other-number\"); }" % t,
+         "if (n as u128) <= (%s::MAX as u128) { kani::cover!((n as u128) > (%s::MAX as u128) / 2, \"VP:reached-fits\"); assert!((out as u128) == (n as u128), \"VP:literal-evaluates-to-other-number\"); }" % (t, t),
          "else { assert!(out == %s::MAX, \"VP:overflowing-literal-not-clamped\"); }" % t,
          "kani::cover!(true, \"VP:reached\");", "forget(fx); forget(a);"]
     h = H("c13_typed_integer_%s" % t, "    " + "\n    ".join(b), WHERE, domain="accept", key="typed-integer/%s" % t,
